@@ -126,7 +126,11 @@ func solveOne(e *Enc, o *Obligation, idx int, opts solveOpts) {
 	}
 	fileA := write("", nq > 0)
 	o.File = fileA
-	a := runSolver(solvers[0], fileA, opts.TimeoutS)
+	ta := opts.TimeoutS
+	if o.IsCover && ta > 5 {
+		ta = 5 // a cover is a vacuity probe: only an unsat answer matters
+	}
+	a := runSolver(solvers[0], fileA, ta)
 	o.Seconds += a.seconds
 	if nq > 0 {
 		record(a, "/relaxed")
@@ -140,9 +144,8 @@ func solveOne(e *Enc, o *Obligation, idx int, opts solveOpts) {
 		return
 	}
 	if o.IsCover {
-		if a.result == "sat" {
-			return
-		}
+		// sat: reachable. unknown: not decided within the probe budget (not an alarm).
+		return
 	}
 	if nq == 0 {
 		if a.result == "sat" {
